@@ -10,6 +10,7 @@ import (
 	"strings"
 
 	"github.com/gopher-fleece/gleece/v2/cmd"
+	"github.com/gopher-fleece/gleece/v2/common"
 	"github.com/gopher-fleece/gleece/v2/core/pipeline"
 	"github.com/gopher-fleece/gleece/v2/core/validators/diagnostics"
 	"github.com/gopher-fleece/gleece/v2/definitions"
@@ -91,6 +92,7 @@ type pProject struct {
 	Engines     []string      `json:"engines"` // routers to render (default: the configured one)
 	Indent      string        `json:"indent,omitempty"`
 	Repeat      int           `json:"repeat,omitempty"` // C19: how many times the analysis is repeated on ONE pipeline
+	Determinism int           `json:"determinism,omitempty"` // C13: number of brand-new sessions whose bytes are compared
 }
 
 // ---- rendering
@@ -414,6 +416,48 @@ func entitySpans(p pProject, texts map[string]string) []pSpan {
 	return out
 }
 
+type pDeterm struct {
+	Runs           int  `json:"runs"`
+	RoutesDistinct int  `json:"routesDistinct"` // distinct byte contents of the routes file over the runs
+	Spec30Distinct int  `json:"spec30Distinct"`
+	Spec31Distinct int  `json:"spec31Distinct"`
+	SpecPerEngine  int  `json:"specDistinctAcrossEngines"` // distinct spec bytes when only routesConfig.engine changes
+	DateOnly       bool `json:"dateOnlyDifference"`        // with the date comment enabled, two runs differ at most in that line
+}
+
+// fullRun: a brand-new session (config load, pipeline, routes, spec) returning the bytes it produced
+func fullRun(dir string, engine string, version string, skipDate bool) (routesBytes string, specBytes string, err error) {
+	cfg, err := cmd.LoadGleeceConfig("gleece.config.json")
+	if err != nil {
+		return "", "", err
+	}
+	cfg.RoutesConfig.Engine = definitions.RoutingEngineType(engine)
+	cfg.OpenAPIGeneratorConfig.OpenAPI = version
+	cfg.RoutesConfig.SkipGenerateDateComment = skipDate
+	outPath := filepath.Join(dir, "dist", "det", "gleece.go")
+	cfg.RoutesConfig.OutputPath = outPath
+	pipe, err := pipeline.NewGleecePipeline(cfg)
+	if err != nil {
+		return "", "", err
+	}
+	meta, err := pipe.Run()
+	if err != nil {
+		return "", "", err
+	}
+	if err := routes.GenerateRoutes(cfg, meta); err != nil {
+		return "", "", err
+	}
+	rb, err := os.ReadFile(outPath)
+	if err != nil {
+		return "", "", err
+	}
+	sb, err := swagen.GenerateSpec(&cfg.OpenAPIGeneratorConfig, meta.Flat, &meta.Models, meta.PlainErrorPresent)
+	if err != nil {
+		return string(rb), "", err
+	}
+	return string(rb), string(sb), nil
+}
+
 type projOut struct {
 	Spans     []pSpan  `json:"_spans,omitempty"`
 	ConfigErr string   `json:"configErr,omitempty"`
@@ -426,8 +470,10 @@ type projOut struct {
 	DupBlocks int      `json:"dupEntityBlocks"` // entity blocks repeated in the error text
 	IR        *irDoc   `json:"ir,omitempty"`
 	Out       *irOut   `json:"out,omitempty"`
-	Repeats   []string `json:"repeats,omitempty"` // C19: sha of the canonical IR after each repeated analysis
-	Counts    []int    `json:"graphCounts,omitempty"`
+	Repeats   []string `json:"repeats,omitempty"` // C19: "same"/"different" canonical IR after each repeated analysis on ONE pipeline
+	Counts    []int    `json:"graphCounts,omitempty"` // number of graph nodes after the first and after each repeated analysis
+	Fresh     string   `json:"fresh,omitempty"`       // brand-new pipeline vs the first analysis
+	Determ    *pDeterm `json:"determinism,omitempty"` // C13
 }
 
 func flattenDiags(root string, texts map[string]string, ctrl string, d diagnostics.EntityDiagnostic, isCtrl bool, out *[]pDiag) {
@@ -556,6 +602,10 @@ func runProject(p pProject) (out projOut) {
 	ir := fromDefinitions(cfg, meta, p.Engines)
 	out.IR = &ir
 	// C19: repeated analysis on the same pipeline
+	countNodes := func() int { return len(pipe.Graph().FindByKind(allNodeKinds...)) + len(pipe.Graph().FindByKind(common.SymKindParameter, common.SymKindReturnType, common.SymKindComposite, common.SymKindTypeParam)) }
+	if p.Repeat > 0 {
+		out.Counts = append(out.Counts, countNodes())
+	}
 	for i := 0; i < p.Repeat; i++ {
 		if err := pipe.GenerateGraph(); err != nil {
 			out.Repeats = append(out.Repeats, "graph-error: "+firstLines(err.Error(), 2))
@@ -577,6 +627,27 @@ func runProject(p pProject) (out projOut) {
 			out.Repeats = append(out.Repeats, "same")
 		} else {
 			out.Repeats = append(out.Repeats, "different")
+		}
+		out.Counts = append(out.Counts, countNodes())
+	}
+	if p.Repeat > 0 {
+		// a brand-new session on the same, unchanged project
+		if p2, err := pipeline.NewGleecePipeline(cfg); err != nil {
+			out.Fresh = "error: " + firstLines(err.Error(), 2)
+		} else if m3, err := p2.Run(); err != nil {
+			out.Fresh = "error: " + firstLines(err.Error(), 2)
+		} else {
+			b1, _ := json.Marshal(canonIR(ir))
+			b3, _ := json.Marshal(canonIR(fromDefinitions(cfg, m3, p.Engines)))
+			if string(b1) == string(b3) {
+				out.Fresh = "same"
+			} else {
+				out.Fresh = "different"
+				if os.Getenv("VH_KEEP") != "" {
+					os.WriteFile(filepath.Join(os.Getenv("VH_KEEP"), "ir1.json"), b1, 0o644)
+					os.WriteFile(filepath.Join(os.Getenv("VH_KEEP"), "ir3.json"), b3, 0o644)
+				}
+			}
 		}
 	}
 	// artifacts: both spec versions and the requested routers, from the REAL metadata
@@ -632,6 +703,62 @@ func runProject(p pProject) (out projOut) {
 		res.Routes[e] = ro
 	}
 	out.Out = &res
+	if k := p.Determinism; k > 0 && res.Spec30.Err == "" {
+		d := pDeterm{Runs: k}
+		rset, s30, s31 := map[string]bool{}, map[string]bool{}, map[string]bool{}
+		eng := string(cfg.RoutesConfig.Engine)
+		for i := 0; i < k; i++ {
+			rb, sb, err := fullRun(dir, eng, "3.0.0", true)
+			if err != nil {
+				rset["error:"+firstLines(err.Error(), 1)] = true
+				continue
+			}
+			rset[rb], s30[sb] = true, true
+			if _, sb31, err := fullRun(dir, eng, "3.1.0", true); err == nil {
+				s31[sb31] = true
+			}
+		}
+		d.RoutesDistinct, d.Spec30Distinct, d.Spec31Distinct = len(rset), len(s30), len(s31)
+		perEngine := map[string]bool{}
+		for _, e := range []string{"gin", "echo", "mux", "chi", "fiber"} {
+			if _, sb, err := fullRun(dir, e, "3.0.0", true); err == nil {
+				perEngine[sb] = true
+			}
+		}
+		d.SpecPerEngine = len(perEngine)
+		// with the date comment on, the only permitted difference is that line
+		r1, _, e1 := fullRun(dir, eng, "3.0.0", false)
+		r2, _, e2 := fullRun(dir, eng, "3.0.0", true)
+		if e1 == nil && e2 == nil {
+			// drop the date line and blank lines (the header keeps an empty line in its place)
+			strip := func(t string) []string {
+				o := []string{}
+				for _, l := range strings.Split(t, "\n") {
+					if strings.TrimSpace(l) == "" || strings.HasPrefix(l, "Generated Date:") {
+						continue
+					}
+					o = append(o, l)
+				}
+				return o
+			}
+			l1, l2 := strip(r1), strip(r2)
+			diff := 0
+			if len(l1) == len(l2) {
+				for i := range l1 {
+					if l1[i] != l2[i] {
+						diff += 100
+					}
+				}
+			} else {
+				diff = 1000
+			}
+			if !strings.Contains(r1, "Generated Date:") {
+				diff += 500
+			}
+			d.DateOnly = diff <= 1
+		}
+		out.Determ = &d
+	}
 	return
 }
 
